@@ -180,6 +180,11 @@ def run(ctx):
                     why = "the exponent's denominator is not `n as <float>` (found %s of type %s)" % (r["k"], r.get("ty"))
             ok = base_ok and ex_ok
     ctx.ob("V-ROOT", "root(self, n) = from(self.into().powf(1.0 / (n as FloatPrecision)))", ok, why)
+    # naming-law lints over the modules this property lives in (sibling slips: truth<->budget, stamp<->punctuation, left<->right, swapped arguments)
+    import roles as _roles
+    _roles.rule_R_ROLE(ctx, modules=('api::data_structure::evidence_value', 'enum_narsese::sentence::truth', 'enum_narsese::task::budget', 'api::hyper_parameters'))
+    _roles.rule_A_NAMES(ctx, modules=('api::data_structure::evidence_value', 'enum_narsese::sentence::truth', 'enum_narsese::task::budget', 'api::hyper_parameters'))
+    _roles.rule_K_NAMES(ctx, only=("evidence_value",))
     ctx.undecided = ["`root(n)` of a valid number is valid as a floating-point law of powf (only its shape -- V-ROOT -- is decided)",
                      "the behaviour of (0.0..=1.0).contains on -0.0/subnormals is std's (trusted: -0.0 >= 0.0 holds)"]
     ctx.assumptions = ["RangeInclusive<f64>::contains(x) = 0.0 <= x && x <= 1.0 (false for NaN)", "Result::unwrap panics iff Err"]
